@@ -631,3 +631,24 @@ def coq_pgraph(g, it):
         ns.append(f"({i}, {t})")
     sc = [f"({i}, {coq_list([str(x) for x in l])})" for i, l in enumerate(g["succ"])]
     return f"PGraph {coq_list(ns)} {coq_list(sc)} {g['head']}"
+
+
+class GenLoopyBunched(GenLoopy):
+    """like GenLoopy, but the continuing branch of the break XOR may BEGIN with an AND/OR fork (no event between the
+    deciding event and the fork) and a break branch may follow a fork - 'bunched' loop exits"""
+
+    def loopbody(self, depth, loopdepth):
+        body = [self.ev()]
+        brs = [[self.ev(), ("break",)]]
+        kind = self.r.choice(["AND", "AND", "OR"])
+        cont = [("fork", kind, [[self.ev()], [self.ev()] + ([self.ev()] if self.r.random() < 0.4 else [])])]
+        if self.r.random() < 0.7:
+            cont.append(self.ev())
+        brs.append(cont)
+        if self.r.random() < 0.3:
+            brs.append([self.ev()])
+        self.r.shuffle(brs)
+        body.append(("fork", "XOR", brs))
+        if self.r.random() < 0.4:
+            body.append(self.ev())
+        return body
